@@ -14,13 +14,15 @@ Inductive ct_call :=
 | CtFailure                (* AimdController::record_failure *)
 | CtSuccesses (n : Z)      (* AimdController::record_successes(n) *)
 | CtLatency (lat : Z)      (* Aimd::record_success(latency): failure iff latency > threshold *)
-| CtLimit.                 (* limit() *)
+| CtLimit                  (* limit() *)
+| CtReset.                 (* AimdController::reset(): store the (clamped) configured initial limit *)
 
 Inductive ct_pc :=
 | CsLoad | CsCas (prev : Z)
 | CfLoad | CfCas (prev : Z)
 | CnLoad (n : Z) | CnCas (n prev : Z)
-| ClLoad.
+| ClLoad
+| CrStore.
 
 Definition ct_start (thr : Z) (c : ct_call) : ct_pc :=
   match c with
@@ -29,11 +31,13 @@ Definition ct_start (thr : Z) (c : ct_call) : ct_pc :=
   | CtSuccesses n => CnLoad (Z.max 0 n)          (* count : usize *)
   | CtLatency lat => if thr <? lat then CfLoad else CsLoad
   | CtLimit => ClLoad
+  | CtReset => CrStore
   end.
 
-Definition ct_op (c : acfg) (dec : Z -> Z) (pc : ct_pc) : aop :=
+Definition ct_op (c : acfg) (dec : Z -> Z) (initial : Z) (pc : ct_pc) : aop :=
   match pc with
   | CsLoad | CfLoad | CnLoad _ | ClLoad => OLoad LLim
+  | CrStore => OStore LLim (ctl_init c initial)
   | CsCas p => OCas LLim p (ctl_succ c p)
   | CfCas p => OCas LLim p (ctl_fail c dec p)
   | CnCas n p => OCas LLim p (ctl_succs c n p)
@@ -49,10 +53,12 @@ Definition ct_next (pc : ct_pc) (v : Z) (ok : bool) : ct_pc + Z :=
   | CnLoad n => inl (CnCas n v)
   | CnCas n _ => if ok then inr 2 else inl (CnCas n v)
   | ClLoad => inr v
+  | CrStore => inr 2
   end.
 
-Definition ct_prog (c : acfg) (dec : Z -> Z) (thr : Z) : prog ct_pc ct_call :=
-  {| p_start := ct_start thr; p_op := ct_op c dec; p_next := ct_next |}.
+(* [initial]: the configured initial_limit (reset() goes back to its clamped value) *)
+Definition ct_prog (c : acfg) (dec : Z -> Z) (thr initial : Z) : prog ct_pc ct_call :=
+  {| p_start := ct_start thr; p_op := ct_op c dec initial; p_next := ct_next |}.
 
 Definition ct_mem (c : acfg) (initial : Z) : mem :=
   fun l => match l with LLim => ctl_init c initial | _ => 0 end.
@@ -200,6 +206,8 @@ Record svc := {
   sv_created : list nat;         (* ids used so far *)
   sv_gate : list (nat * Z);      (* outcomes sent to the inner calls: 0 ok, 1 err, 2 panic *)
   sv_now : Z;
+  sv_park : list (nat * Z);      (* parked callers (clones with a waker of their own): result of
+                                    their last readiness check *)
   sv_inner : Z                   (* inner poll_ready: 0 Ready(Ok), 1 Pending, 2 Ready(Err) *)
 }.
 Definition sv_limit (s : svc) : Z := as_lim (sv_alg s).   (* algorithm.limit() *)
@@ -215,7 +223,11 @@ Inductive sev :=
 | ECallPanic (a : nat)           (* call() on an inner service whose call() panics *)
 | EExtFail                       (* service.algorithm().record_failure(): feedback that does not
                                     come from a call of this service (the algorithm is shared) *)
-| EExtSucc.                      (* service.algorithm().record_success(0) *)
+| EExtSucc                       (* service.algorithm().record_success(0) *)
+| EPark (a : nat)                (* caller a (a clone of the service with its own waker, made at its
+                                    first check) calls poll_ready; its waker is kept *)
+| EWoken (a : nat)               (* has caller a's waker been woken since its last check? *)
+| EUnpark (a : nat).             (* caller a goes away: its clone and its waker are dropped *)
 
 Fixpoint lookup {V : Type} (a : nat) (l : list (nat * V)) : option V :=
   match l with
@@ -232,7 +244,7 @@ Fixpoint memn (a : nat) (l : list nat) : bool :=
 
 Definition sv_set (s : svc) (al : ast) (inflight : Z) (live : list (nat * Z)) : svc :=
   {| sv_alg := al; sv_inflight := inflight; sv_live := live; sv_created := sv_created s;
-     sv_gate := sv_gate s; sv_now := sv_now s; sv_inner := sv_inner s |}.
+     sv_gate := sv_gate s; sv_now := sv_now s; sv_park := sv_park s; sv_inner := sv_inner s |}.
 
 (* result codes: poll_ready 10 Pending (inner) / 11 Ready(Ok) / 12 Ready(Err) / 13 Pending at
    the limit (wakes itself); call 20 created / 21 id in use / 26 inner.call() panicked;
@@ -241,8 +253,27 @@ Definition sv_set (s : svc) (al : ast) (inflight : Z) (live : list (nat * Z)) : 
    external feedback on the shared algorithm: 80 failure / 81 success.
    poll_ready compares in_flight with the algorithm's CURRENT limit (algorithm.limit()), not
    with a copy refreshed by this service's own calls. *)
+Definition ready_code (s : svc) : Z :=
+  if sv_limit s <=? sv_inflight s then 13
+  else if sv_inner s =? 0 then 11 else if sv_inner s =? 1 then 10 else 12.
+
+Definition sv_set_park (s : svc) (pk : list (nat * Z)) : svc :=
+  {| sv_alg := sv_alg s; sv_inflight := sv_inflight s; sv_live := sv_live s;
+     sv_created := sv_created s; sv_gate := sv_gate s; sv_now := sv_now s;
+     sv_park := pk; sv_inner := sv_inner s |}.
+
+(* codes of the parked-caller events: EPark as poll_ready (10 / 11 / 12 / 13); EWoken 91 woken /
+   90 not; EUnpark 92. A refusal at the limit wakes the caller's waker on the spot (13), so a
+   parked caller that was refused at the limit has always been woken by the time capacity is
+   free; a Pending that comes from the inner service (10) wakes nobody here. *)
 Definition sv_step (A : alg) (s : svc) (e : sev) : svc * Z :=
   match e with
+  | EPark a => (sv_set_park s ((a, ready_code s) :: remove_key a (sv_park s)), ready_code s)
+  | EWoken a => (s, match lookup a (sv_park s) with
+                    | Some r => if r =? 13 then 91 else 90
+                    | None => 90
+                    end)
+  | EUnpark a => (sv_set_park s (remove_key a (sv_park s)), 92)
   | EReady =>
       if sv_limit s <=? sv_inflight s then (s, 13)
       else (s, if sv_inner s =? 0 then 11 else if sv_inner s =? 1 then 10 else 12)
@@ -250,14 +281,14 @@ Definition sv_step (A : alg) (s : svc) (e : sev) : svc * Z :=
       if memn a (sv_created s) then (s, 21)
       else ({| sv_alg := sv_alg s; sv_inflight := sv_inflight s + 1;
                sv_live := (a, sv_now s) :: sv_live s; sv_created := a :: sv_created s;
-               sv_gate := sv_gate s; sv_now := sv_now s; sv_inner := sv_inner s |}, 20)
+               sv_gate := sv_gate s; sv_now := sv_now s; sv_park := sv_park s; sv_inner := sv_inner s |}, 20)
   | ECallPanic a =>
       if memn a (sv_created s) then (s, 21)
       (* in_flight is incremented and the guard created before inner.call(); the panic
          unwinds through call() and drops the guard: no future, the slot is given back *)
       else ({| sv_alg := sv_alg s; sv_inflight := sv_inflight s + 1 - 1;
                sv_live := sv_live s; sv_created := a :: sv_created s;
-               sv_gate := sv_gate s; sv_now := sv_now s; sv_inner := sv_inner s |}, 26)
+               sv_gate := sv_gate s; sv_now := sv_now s; sv_park := sv_park s; sv_inner := sv_inner s |}, 26)
   | EPoll a =>
       match lookup a (sv_live s) with
       | None => (s, 39)
@@ -278,7 +309,7 @@ Definition sv_step (A : alg) (s : svc) (e : sev) : svc * Z :=
       | Some _ => (s, 40)
       | None => ({| sv_alg := sv_alg s; sv_inflight := sv_inflight s; sv_live := sv_live s;
                     sv_created := sv_created s; sv_gate := (a, o) :: sv_gate s;
-                    sv_now := sv_now s; sv_inner := sv_inner s |}, 40)
+                    sv_now := sv_now s; sv_park := sv_park s; sv_inner := sv_inner s |}, 40)
       end
   | EDrop a =>
       match lookup a (sv_live s) with
@@ -288,11 +319,11 @@ Definition sv_step (A : alg) (s : svc) (e : sev) : svc * Z :=
   | EAdvance ms =>
       ({| sv_alg := sv_alg s; sv_inflight := sv_inflight s; sv_live := sv_live s;
           sv_created := sv_created s; sv_gate := sv_gate s; sv_now := sv_now s + Z.max 0 ms;
-          sv_inner := sv_inner s |}, 60)
+          sv_park := sv_park s; sv_inner := sv_inner s |}, 60)
   | ESetInner mode =>
       ({| sv_alg := sv_alg s; sv_inflight := sv_inflight s; sv_live := sv_live s;
           sv_created := sv_created s; sv_gate := sv_gate s; sv_now := sv_now s;
-          sv_inner := mode |}, 70)
+          sv_park := sv_park s; sv_inner := mode |}, 70)
   | EExtFail => (sv_set s (al_err A (sv_alg s)) (sv_inflight s) (sv_live s), 80)
   | EExtSucc => (sv_set s (al_ok A 0 (sv_alg s)) (sv_inflight s) (sv_live s), 81)
   end.
@@ -301,7 +332,7 @@ Definition sv_st (A : alg) (s : svc) (e : sev) : svc := fst (sv_step A s e).
 
 Definition sv_init (a0 : ast) : svc :=
   {| sv_alg := a0; sv_inflight := 0; sv_live := []; sv_created := [];
-     sv_gate := []; sv_now := 0; sv_inner := 0 |}.
+     sv_gate := []; sv_now := 0; sv_park := []; sv_inner := 0 |}.
 
 (* the service as it was on the pinned tree (before the InFlightGuard): the counter was
    decremented only after the inner future had been awaited to completion, so a dropped or
@@ -440,13 +471,15 @@ Definition tvn_prog : prog tvn_pc unit :=
 (* script interface (see harness/src/bin/c13.rs)
    kinds 1..3: [kind; p0..p6; npre; (code arg)*; nthreads; {ncalls; (code arg)*}*; nsched; entry*]
      1 AimdController: initial min max increase_by dec_num dec_den _ ;
-       calls 0 record_success, 1 record_failure, 2 record_successes(arg), 3 limit()
+       calls 0 record_success, 1 record_failure, 2 record_successes(arg), 3 limit(), 4 reset()
      2 Aimd: ... p6 = latency threshold (ns); calls 0 record_success(arg ns), 1 record_failure, 3 limit()
      3 Vegas: initial min max alpha beta; calls 0 record_success(arg ns), 1 record_failure, 3 limit()
    kind 4: [4; initial; min; max; increase_by; dec_num; dec_den; threshold_ms; (op a b)*]
      op 1 poll_ready | 2 call a | 3 poll a | 4 complete a b | 5 drop a | 6 advance a ms
         | 7 inner readiness a | 8 call a with panicking inner.call()
         | 9 algorithm().record_failure() | 10 algorithm().record_success(0)
+        | 11 poll_ready by parked caller a (own clone, own waker) | 12 was a's waker woken? (91/90)
+        | 13 caller a goes away (92)
    kind 6: the same events, the service over Vegas: [6; initial; min; max; alpha; beta; 0; 0; ...]
    kinds 7 / 8: as 4 / 6, the algorithm built by its builder, wrapped in the Algorithm enum and
      the service made by AdaptiveLimiterLayer::layer
@@ -456,7 +489,7 @@ Definition tvn_prog : prog tvn_pc unit :=
      cannot schedule them and says so): trace [-5] *)
 Definition ctl_decode (c : Z * Z) : ct_call :=
   if fst c =? 0 then CtSuccess else if fst c =? 1 then CtFailure
-  else if fst c =? 2 then CtSuccesses (snd c) else CtLimit.
+  else if fst c =? 2 then CtSuccesses (snd c) else if fst c =? 4 then CtReset else CtLimit.
 Definition aimd_decode (c : Z * Z) : ct_call :=
   if fst c =? 0 then CtLatency (snd c) else if fst c =? 1 then CtFailure else CtLimit.
 Definition vg_decode (c : Z * Z) : vg_call :=
@@ -474,6 +507,9 @@ Definition sev_decode (t : Z * Z * Z) : sev :=
       else if op =? 7 then ESetInner a
       else if op =? 9 then EExtFail
       else if op =? 10 then EExtSucc
+      else if op =? 11 then EPark (Z.to_nat a)
+      else if op =? 12 then EWoken (Z.to_nat a)
+      else if op =? 13 then EUnpark (Z.to_nat a)
       else ECallPanic (Z.to_nat a)
   end.
 
@@ -521,10 +557,10 @@ Definition run_script (s : list Z) : list Z :=
         let sched := map (decode_entry (length ths)) sch in
         let snap := fun m : mem => [m LLim] in
         if kind =? 1 then
-          run_machine (ct_prog c dec 0) snap (ct_mem c (zn s 1))
+          run_machine (ct_prog c dec 0 (zn s 1)) snap (ct_mem c (zn s 1))
                       (map ctl_decode pre) (map (map ctl_decode) ths) sched
         else if kind =? 2 then
-          run_machine (ct_prog c dec (zn s 7)) snap (ct_mem c (zn s 1))
+          run_machine (ct_prog c dec (zn s 7) (zn s 1)) snap (ct_mem c (zn s 1))
                       (map aimd_decode pre) (map (map aimd_decode) ths) sched
         else if kind =? 5 then
           run_machine (tv_prog c dec) (fun m : mem => [m LInf; m LLim]) (tv_mem c (zn s 1))
